@@ -124,16 +124,32 @@ def _actor_name():
 class SimSocket:
     """The client's socket object."""
 
-    _fds = itertools.count(1000)
+    # descriptor numbers as a kernel hands them out: the lowest free number at or above fd_base (a scenario can raise the base to
+    # model a process that already has many descriptors open: select.select() only works below FD_SETSIZE = 1024)
+    fd_base = 10
+    _fds_in_use = {}  # fd -> weak reference to the socket holding it (a dead or closed holder frees the number)
     is_sim = True
+
+    def _alloc_fd(self):
+        import weakref
+        cls = SimSocket
+        fd = cls.fd_base
+        while True:
+            ref = cls._fds_in_use.get(fd)
+            holder = ref() if ref is not None else None
+            if holder is None or holder._closed:
+                break
+            fd += 1
+        cls._fds_in_use[fd] = weakref.ref(self)
+        return fd
 
     def __init__(self, family=_socket.AF_INET, type=_socket.SOCK_STREAM, proto=0, fileno=None, conn=None, net=None):
         self.family = family
         self.type = type
         self.proto = proto
-        self._fd = next(SimSocket._fds)
-        self._timeout = _socket.getdefaulttimeout()
         self._closed = False
+        self._fd = self._alloc_fd()
+        self._timeout = _socket.getdefaulttimeout()
         self.conn = conn
         self.net = net
         self.opts = []
@@ -387,15 +403,23 @@ class SimSocket:
         return f"<SimSocket fd={self._fd} closed={self._closed} conn={self.conn.id if self.conn else None}>"
 
 
-class SimTLSSocket(SimSocket):
+import ssl as _ssl_mod
+
+
+class SimTLSSocket(SimSocket, _ssl_mod.SSLSocket):
     """Result of wrapping a SimSocket: one peer segment == one TLS record.
     recv(n) decrypts a whole record; the remainder is pending() and invisible
     to the selector (the situation SSLDispatcher exists for)."""
 
+    # Also a (never initialised) ssl.SSLSocket, so that isinstance(sock, ssl.SSLSocket) - the library's way of recognising a TLS
+    # transport - holds; every method the library uses is defined here or in SimSocket, which comes first in the MRO.
     is_tls = True
 
     def __init__(self, inner: SimSocket, context=None, server_hostname=None, **kw):
         self.__dict__.update(inner.__dict__)
+        # socket.socket keeps these two in slots (data descriptors win over the instance dict)
+        self._closed = inner._closed
+        self._io_refs = 0
         self._inner = inner
         self._plain = b""
         self.context_snapshot = {
@@ -436,6 +460,27 @@ class SimTLSSocket(SimSocket):
             c.max_recv_req = bufsize
         out, self._plain = rec[:bufsize], rec[bufsize:]
         return out
+
+    def unwrap(self):
+        """TLS shutdown as ssl.SSLSocket.unwrap() does it: send close_notify, then wait (within the socket timeout) for the peer's;
+        a peer that is silent or only streams application data never sends one; end of stream ends the wait."""
+        c = self.conn
+        if self._closed:
+            raise OSError(errno.EBADF, "Bad file descriptor")
+        self._log("tls-unwrap")
+        s = self._sched()
+        if c is None or s is None:
+            return self._inner
+        def peer_gone():
+            return c.client_shutdown or any(k in (EOF, RESET) for k, _ in c.rx) or getattr(c, "peer_close_notify", False)
+        if not peer_gone():
+            if self._timeout == 0:
+                import ssl as _ssl
+                raise _ssl.SSLWantReadError(_ssl.SSL_ERROR_WANT_READ, "The operation did not complete (read)")
+            ok = s.block(peer_gone, self._timeout, why=f"tls unwrap conn{c.id}")
+            if not ok:
+                raise _real_timeout("The read operation timed out")
+        return self._inner
 
     def close(self):
         SimSocket.close(self)
@@ -508,6 +553,33 @@ class SimSelector:
 
     def __exit__(self, *a):
         self.close()
+
+
+FD_SETSIZE = 1024
+
+
+def sim_select(rlist, wlist, xlist, timeout=None):
+    """select.select() over simulated sockets, with CPython's limits: a descriptor number at or above FD_SETSIZE is a ValueError,
+    a closed socket (fileno -1) too."""
+    for so in list(rlist) + list(wlist) + list(xlist):
+        fd = so.fileno() if hasattr(so, "fileno") else so
+        if not isinstance(fd, int) or fd < 0:
+            raise ValueError("file descriptor cannot be a negative integer (-1)")
+        if fd >= FD_SETSIZE:
+            raise ValueError("filedescriptor out of range in select()")
+    sel = SimSelector()
+    for so in rlist:
+        sel.register(so, EVENT_READ)
+    for so in wlist:
+        if so.fileno() in sel._keys:
+            k = sel._keys[so.fileno()]
+            sel._keys[so.fileno()] = SelectorKey(k.fileobj, k.fd, k.events | EVENT_WRITE, None)
+        else:
+            sel.register(so, EVENT_WRITE)
+    ready = sel.select(timeout)
+    r = [k.fileobj for k, ev in ready if ev & EVENT_READ]
+    w = [k.fileobj for k, ev in ready if ev & EVENT_WRITE]
+    return r, w, []
 
 
 class SimNetwork:
